@@ -414,4 +414,89 @@ func sighashCases(g *core.Gen) {
 	}
 }
 
+// mutateVectors derives new spends from Core's vectors: the same scripts under another reachable flag set,
+// and scripts / witness items with one byte substituted, inserted or deleted. Core recorded no result for
+// these, so they only compare btcd with the Lean model in the neighbourhood of Core's hand-picked cases.
+func mutateVectors(r *core.Rand, base []caseSpec, perCase int) []caseSpec {
+	var out []caseSpec
+	mutBytes := func(b []byte) []byte {
+		c := append([]byte{}, b...)
+		if len(c) == 0 {
+			return []byte{byte(r.Intn(256))}
+		}
+		i := r.Intn(len(c))
+		switch r.Intn(4) {
+		case 0:
+			c[i] ^= byte(1 << uint(r.Intn(8)))
+		case 1:
+			c[i] = byte(r.Pick(0x00, 0x51, 0x61, 0x63, 0x64, 0x67, 0x68, 0x69, 0x6a, 0x75, 0x76, 0x87, 0x91, 0xac, 0xad, 0xae, 0xba, int64(r.Intn(256))))
+		case 2:
+			c = append(c[:i], c[i+1:]...)
+		default:
+			c = append(c[:i], append([]byte{byte(r.Pick(0x00, 0x51, 0x61, 0x75, 0x76, 0x91, int64(r.Intn(256))))}, c[i:]...)...)
+		}
+		return c
+	}
+	for _, c := range base {
+		if c.whole || c.sp.idx >= len(c.sp.tx.TxIn) {
+			continue
+		}
+		for k := 0; k < perCase; k++ {
+			tx := c.sp.tx.Copy()
+			spent := make([]*wire.TxOut, len(c.sp.spent))
+			for i, o := range c.sp.spent {
+				oc := *o
+				spent[i] = &oc
+			}
+			fl := c.sp.flags
+			in := tx.TxIn[c.sp.idx]
+			what := r.Intn(5)
+			switch {
+			case what == 0:
+				fl = pickFlags(r)
+			case what == 1:
+				in.SignatureScript = mutBytes(in.SignatureScript)
+			case what == 2:
+				spent[c.sp.idx].PkScript = mutBytes(spent[c.sp.idx].PkScript)
+			case what == 3 && len(in.Witness) > 0:
+				w := make(wire.TxWitness, len(in.Witness))
+				copy(w, in.Witness)
+				j := r.Intn(len(w))
+				w[j] = mutBytes(w[j])
+				in.Witness = w
+			default:
+				fl = pickFlags(r)
+				in.SignatureScript = mutBytes(in.SignatureScript)
+			}
+			// keep to flag sets the node can use
+			if !reachableFlags(fl) {
+				fl = pickFlags(r)
+			}
+			out = append(out, caseSpec{class: strings.Replace(c.class, "vec:", "mut:", 1),
+				sp: &spend{flags: fl, tx: tx, idx: c.sp.idx, spent: spent}})
+		}
+	}
+	return out
+}
+
+// reachableFlags: a combination of the consensus groups (WITNESS with NULLDUMMY and only with P2SH) or the
+// standard policy set.
+func reachableFlags(fl txscript.ScriptFlags) bool {
+	if fl == txscript.StandardVerifyFlags {
+		return true
+	}
+	if fl&^consensusAll != 0 {
+		return false
+	}
+	w := fl&txscript.ScriptVerifyWitness != 0
+	nd := fl&txscript.ScriptStrictMultiSig != 0
+	if w != nd {
+		return false
+	}
+	if w && fl&txscript.ScriptBip16 == 0 {
+		return false
+	}
+	return true
+}
+
 var _ = binary.LittleEndian
